@@ -1,12 +1,14 @@
 ------------------------------ MODULE RaceDriver ------------------------------
 (***************************************************************************)
-(* The load-driver protocol of Rally: the coordinator (DriverActor+Driver), *)
-(* the Worker actors with their executor (AsyncIoAdapter / AsyncExecutor,  *)
-(* one coroutine per allocated client and task) and the race-control       *)
-(* endpoint.  One action per message handler / executor step of            *)
-(* esrally/driver/driver.py; actor messages travel through FIFO channels   *)
-(* per (sender, receiver) pair, wake-ups are untimed (may fire any time    *)
-(* after being armed).                                                     *)
+(* The load-driver protocol of Rally: race control (BenchmarkActor +       *)
+(* BenchmarkCoordinator), the coordinator (DriverActor + Driver), the      *)
+(* Worker actors with their executor (AsyncIoAdapter / AsyncExecutor, one  *)
+(* coroutine per allocated client and task), the sample pipeline from the  *)
+(* samplers to race control's metrics store, and failure propagation.      *)
+(* One action per message handler / executor step of                       *)
+(* esrally/driver/driver.py and esrally/racecontrol.py; actor messages     *)
+(* travel through FIFO channels per (sender, receiver) pair, wake-ups are  *)
+(* untimed (may fire any time after being armed).                          *)
 (*                                                                         *)
 (* A scenario scn = [sched, workerOf, W]:                                  *)
 (*   sched    sequence of schedule elements [tasks, cap]; cap = 0: the     *)
@@ -28,25 +30,32 @@ CONSTANTS Scenarios,     \* set of scenarios Init chooses from
           QMax,          \* capacity of a worker's sample queue (reporting/sample.queue.size)
           PPInterval,    \* coordinator wake-ups between two periodic post-processing runs
           TestMode,      \* track/test.mode.enabled: next task starts immediately, no relative-time reset timer
-          MaxEternal     \* only the first MaxEternal requests of an eternal task are counted and sampled in the model
+          MaxEternal,    \* only the first MaxEternal requests of an eternal task are counted and sampled in the model
                          \* (keeps the state space finite without a state constraint); traces use a large value
+          SelfFailFix,   \* TRUE: repaired actor.no_retry (a failure while handling a message from oneself, e.g. a wake-up, is
+                         \* handled at once); FALSE: pinned behaviour (BenchmarkFailure is sent to oneself and may be overtaken)
+          FaultKinds     \* set of fault kinds Init chooses from; {"none"} for the fault-free protocol (C01, C07)
 
 Eternal == -1
 
 VARIABLES scn,      \* the scenario (constant during a behaviour)
           d2w,      \* d2w[w]: FIFO channel coordinator -> worker w
           w2d,      \* w2d[w]: FIFO channel worker w -> coordinator
-          rcbox,    \* messages received by race control, in order
+          d2d,      \* messages the coordinator sent to itself (no_retry on its own wake-up)
+          rc2d,     \* FIFO channel race control -> coordinator
+          rcbox,    \* everything the coordinator (or a dying worker's parent notification) sent to race control, in order
+          rcst,     \* race control: [pos (messages of rcbox handled), error, cancelled, stored, stopping, alive, replies]
           timers,   \* timers[w]: number of pending wake-ups of worker w
           dtimers,  \* pending wake-ups of the coordinator: sequence of payloads "tick" | "reset" (any may fire)
           drv,      \* coordinator state
           wk,       \* wk[w]: worker state
           cell,     \* cell[c]: what client c's coroutine is doing
-          hist,     \* history (observations the property talks about)
+          flt,      \* the (at most one) fault of this behaviour: [kind, armed, fired]
+          hist,     \* history (observations the properties talk about)
           act       \* last action, for schedule extraction (hidden by VIEW)
 
-vars == <<scn, d2w, w2d, rcbox, timers, dtimers, drv, wk, cell, hist, act>>
-view == <<scn, d2w, w2d, rcbox, timers, dtimers, drv, wk, cell, hist>>
+vars == <<scn, d2w, w2d, d2d, rc2d, rcbox, rcst, timers, dtimers, drv, wk, cell, flt, hist, act>>
+view == <<scn, d2w, w2d, d2d, rc2d, rcbox, rcst, timers, dtimers, drv, wk, cell, flt, hist>>
 
 -----------------------------------------------------------------------------
 (* Allocation matrix (transcription of Allocator.allocations)               *)
@@ -129,18 +138,25 @@ InitHist == [runs |-> {},       \* <<c, j>>: an executor coroutine was started f
              dropped |-> {}     \* samples dropped because the worker's sample queue was full
             ]
 
+InitRc == [pos |-> 0, error |-> FALSE, cancelled |-> FALSE, stored |-> FALSE, stopping |-> FALSE, alive |-> TRUE, replies |-> <<>>]
+InitDrv == [completed |-> 0, doneW |-> {}, step |-> -1, cct |-> FALSE, raw |-> <<>>, store |-> <<>>, ppt |-> 0, alive |-> TRUE]
+InitWk == [cur |-> 0, nxt |-> 0, sd |-> FALSE, fut |-> "none", complete |-> FALSE, cancel |-> FALSE, sampq |-> <<>>, alive |-> TRUE]
+
 Init == /\ scn \in Scenarios
         /\ d2w = [w \in Workers(scn) |-> <<Msg("Bootstrap"), Msg("StartWorker")>>]     \* Driver.start_benchmark has run
         /\ w2d = [w \in Workers(scn) |-> <<>>]
-        /\ rcbox = <<>>
+        /\ d2d = <<>> /\ rc2d = <<>> /\ rcbox = <<>>
+        /\ rcst = InitRc
         /\ timers = [w \in Workers(scn) |-> 0]
         /\ dtimers = IF Ticks THEN <<"tick">> ELSE <<>>
-        /\ drv = [completed |-> 0, doneW |-> {}, step |-> -1, cct |-> FALSE, raw |-> <<>>, store |-> <<>>, ppt |-> 0]
-        /\ wk = [w \in Workers(scn) |-> [cur |-> 0, nxt |-> 0, sd |-> FALSE, fut |-> "none", complete |-> FALSE,
-                                         cancel |-> FALSE, sampq |-> <<>>]]
+        /\ drv = InitDrv
+        /\ wk = [w \in Workers(scn) |-> InitWk]
         /\ cell = [c \in Clients(scn) |-> Idle]
+        /\ flt \in {[kind |-> k, armed |-> FALSE, fired |-> FALSE] : k \in FaultKinds}
         /\ hist = InitHist
         /\ act = [name |-> "Init"]
+
+NoFault == flt.kind = "none" \/ flt.fired \/ flt.armed
 
 -----------------------------------------------------------------------------
 (* Worker.send_samples(): drain the sampler queue into one UpdateSamples message *)
@@ -163,45 +179,56 @@ DriveFrom(w, ws, skipped) ==
             ELSE [ws |-> [ws1 EXCEPT !.fut = "submitted", !.sampq = <<>>],      \* a new Sampler replaces the old one
                   send |-> <<>>, arm |-> 1, skipped |-> skipped]
 
+WUnch == UNCHANGED <<scn, d2d, rc2d, rcbox, rcst, dtimers, drv, flt>>
+
 (* receiveMsg_Bootstrap: nothing the protocol depends on *)
 WRecvBootstrap(w) ==
-    /\ d2w[w] # <<>> /\ Head(d2w[w]).k = "Bootstrap"
+    /\ wk[w].alive /\ d2w[w] # <<>> /\ Head(d2w[w]).k = "Bootstrap"
     /\ d2w' = [d2w EXCEPT ![w] = Tail(@)]
-    /\ UNCHANGED <<scn, w2d, rcbox, timers, dtimers, drv, wk, cell, hist>>
+    /\ UNCHANGED <<w2d, timers, wk, cell, hist>> /\ WUnch
     /\ act' = [name |-> "WRecvBootstrap", w |-> w]
 
 (* receiveMsg_StartWorker *)
 WRecvStartWorker(w) ==
-    /\ d2w[w] # <<>> /\ Head(d2w[w]).k = "StartWorker"
+    /\ wk[w].alive /\ d2w[w] # <<>> /\ Head(d2w[w]).k = "StartWorker"
     /\ d2w' = [d2w EXCEPT ![w] = Tail(@)]
     /\ LET r == DriveFrom(w, [wk[w] EXCEPT !.cur = 0, !.cancel = FALSE], {})
        IN /\ wk' = [wk EXCEPT ![w] = r.ws]
           /\ w2d' = [w2d EXCEPT ![w] = @ \o r.send]
           /\ timers' = [timers EXCEPT ![w] = @ + r.arm]
           /\ hist' = [hist EXCEPT !.skip = @ \cup r.skipped]
-    /\ UNCHANGED <<scn, rcbox, dtimers, drv, cell>>
+    /\ UNCHANGED cell /\ WUnch
     /\ act' = [name |-> "WRecvStartWorker", w |-> w]
 
 (* receiveMsg_Drive *)
 WRecvDrive(w) ==
-    /\ d2w[w] # <<>> /\ Head(d2w[w]).k = "Drive"
+    /\ wk[w].alive /\ d2w[w] # <<>> /\ Head(d2w[w]).k = "Drive"
     /\ d2w' = [d2w EXCEPT ![w] = Tail(@)]
     /\ wk' = [wk EXCEPT ![w].sd = TRUE]
     /\ timers' = [timers EXCEPT ![w] = @ + 1]
-    /\ UNCHANGED <<scn, w2d, rcbox, dtimers, drv, cell, hist>>
+    /\ UNCHANGED <<w2d, cell, hist>> /\ WUnch
     /\ act' = [name |-> "WRecvDrive", w |-> w]
 
 (* receiveMsg_CompleteCurrentTask *)
 WRecvCCT(w) ==
-    /\ d2w[w] # <<>> /\ Head(d2w[w]).k = "CompleteCurrentTask"
+    /\ wk[w].alive /\ d2w[w] # <<>> /\ Head(d2w[w]).k = "CompleteCurrentTask"
     /\ d2w' = [d2w EXCEPT ![w] = Tail(@)]
     /\ wk' = [wk EXCEPT ![w].complete = IF Col(scn, wk[w].cur).k = "jp" /\ ~(CctFix /\ wk[w].sd) THEN @ ELSE TRUE]
-    /\ UNCHANGED <<scn, w2d, rcbox, timers, dtimers, drv, cell, hist>>
+    /\ UNCHANGED <<w2d, timers, cell, hist>> /\ WUnch
     /\ act' = [name |-> "WRecvCCT", w |-> w]
+
+(* Worker.receiveMsg_BenchmarkFailure: sent by the no_retry infrastructure (a coordinator handler failed while handling *)
+(* this worker's message); forward to the coordinator                                                                   *)
+WRecvBenchmarkFailure(w) ==
+    /\ wk[w].alive /\ d2w[w] # <<>> /\ Head(d2w[w]).k = "BenchmarkFailure"
+    /\ d2w' = [d2w EXCEPT ![w] = Tail(@)]
+    /\ w2d' = [w2d EXCEPT ![w] = Append(@, Msg("BenchmarkFailure"))]
+    /\ UNCHANGED <<timers, wk, cell, hist>> /\ WUnch
+    /\ act' = [name |-> "WRecvBenchmarkFailure", w |-> w]
 
 (* receiveMsg_WakeupMessage *)
 WWakeup(w) ==
-    /\ timers[w] > 0
+    /\ wk[w].alive /\ timers[w] > 0
     /\ IF wk[w].sd
        THEN /\ LET r == DriveFrom(w, [wk[w] EXCEPT !.sd = FALSE], {})
                IN /\ wk' = [wk EXCEPT ![w] = r.ws]
@@ -216,10 +243,16 @@ WWakeup(w) ==
                           /\ w2d' = [w2d EXCEPT ![w] = @ \o sent \o r.send]
                           /\ timers' = [timers EXCEPT ![w] = @ - 1 + r.arm]
                           /\ hist' = [hist EXCEPT !.skip = @ \cup r.skipped]
+               ELSE IF wk[w].fut = "failed"
+               THEN \* the executor raised: notify the coordinator, do not wake up again
+                    /\ wk' = [wk EXCEPT ![w] = ws0]
+                    /\ w2d' = [w2d EXCEPT ![w] = @ \o sent \o <<Msg("BenchmarkFailure")>>]
+                    /\ timers' = [timers EXCEPT ![w] = @ - 1]
+                    /\ hist' = hist
                ELSE /\ wk' = [wk EXCEPT ![w] = ws0]
                     /\ w2d' = [w2d EXCEPT ![w] = @ \o sent]
                     /\ UNCHANGED <<timers, hist>>      \* still executing: re-arm (−1 + 1)
-    /\ UNCHANGED <<scn, d2w, rcbox, dtimers, drv, cell>>
+    /\ UNCHANGED <<d2w, cell>> /\ WUnch
     /\ act' = [name |-> "WWakeup", w |-> w]
 
 -----------------------------------------------------------------------------
@@ -228,78 +261,127 @@ MyCells(w) == {c \in ClientsOf(scn, w) : HasCell(scn, c, wk[w].cur)}
 
 (* AsyncIoAdapter.run starts one AsyncExecutor per allocated client; each issues its first request *)
 ExecStart(w) ==
-    /\ wk[w].fut = "submitted"
+    /\ wk[w].alive /\ wk[w].fut = "submitted"
     /\ wk' = [wk EXCEPT ![w].fut = "running"]
     /\ cell' = [c \in Clients(scn) |->
                   IF c \in MyCells(w) THEN [col |-> wk[w].cur, rem |-> CellAt(scn, c, wk[w].cur).t.reqs, n |-> 0, st |-> "pend"] ELSE cell[c]]
     /\ hist' = [hist EXCEPT !.runs = @ \cup {<<c, wk[w].cur>> : c \in MyCells(w)},
                             !.dup = @ \/ \E c \in MyCells(w) : <<c, wk[w].cur>> \in hist.runs]
-    /\ UNCHANGED <<scn, d2w, w2d, rcbox, timers, dtimers, drv>>
+    /\ UNCHANGED <<d2w, w2d, timers>> /\ WUnch
     /\ act' = [name |-> "ExecStart", w |-> w]
 
 (* the pending request of client c returns; AsyncExecutor evaluates `completed`, adds the sample,  *)
 (* then either issues the next request or leaves the loop (finally: set `complete` for completing  *)
-(* tasks)                                                                                          *)
-ExecStep(c) ==
+(* tasks).  outcome = "ok" | "fatal" (the request or the runner fails fatally: RallyError out of     *)
+(* the executor, no sample) | "param" (the sample is recorded, then the parameter source raises     *)
+(* when asked for the next request)                                                                *)
+ExecStepWith(c, outcome) ==
     LET w == scn.workerOf[c + 1]
         t == CellAt(scn, c, cell[c].col).t
         rem1 == IF cell[c].rem = Eternal THEN Eternal ELSE cell[c].rem - 1
         externally == IF t.cp THEN FALSE ELSE wk[w].complete
-        ends == externally \/ rem1 = 0
+        fails == outcome = "fatal" \/ (outcome = "param" /\ ~externally /\ rem1 # 0)
+        ends == fails \/ externally \/ rem1 = 0
         setsComplete == ends /\ (t.cp \/ t.acp)
         others == {c2 \in ClientsOf(scn, w) : c2 # c /\ cell[c2].col = cell[c].col /\ cell[c2].st = "pend"}
-        counted == cell[c].rem # Eternal \/ cell[c].n < MaxEternal
+        sampled == outcome # "fatal"
+        counted == sampled /\ (cell[c].rem # Eternal \/ cell[c].n < MaxEternal)
         n1 == IF counted THEN cell[c].n + 1 ELSE cell[c].n
         sid == <<c, cell[c].col, n1>>
         full == Len(wk[w].sampq) >= QMax
-    IN /\ cell[c].st = "pend"
-       /\ cell' = [cell EXCEPT ![c] = [col |-> cell[c].col, rem |-> rem1, n |-> n1, st |-> IF ends THEN "done" ELSE "pend"]]
+    IN /\ wk[w].alive /\ cell[c].st = "pend"
+       /\ outcome = "param" => (~externally /\ rem1 # 0)
+       /\ cell' = [c2 \in Clients(scn) |->
+                     IF c2 = c THEN [col |-> cell[c].col, rem |-> IF outcome = "fatal" THEN cell[c].rem ELSE rem1, n |-> n1,
+                                     st |-> IF fails THEN "failed" ELSE IF ends THEN "done" ELSE "pend"]
+                     ELSE IF fails /\ c2 \in others THEN [cell[c2] EXCEPT !.st = "aband"]     \* the loop dies with the failing gather()
+                     ELSE cell[c2]]
        /\ wk' = [wk EXCEPT ![w].complete = @ \/ setsComplete,
-                           ![w].fut = IF ends /\ others = {} THEN "done" ELSE @,
+                           ![w].fut = IF fails THEN "failed" ELSE IF ends /\ others = {} THEN "done" ELSE @,
                            ![w].sampq = IF full \/ ~counted THEN @ ELSE Append(@, sid)]
        /\ hist' = [hist EXCEPT !.fin = IF ends THEN @ \cup {<<c, cell[c].col>>} ELSE @,
-                               !.cut = IF ends /\ rem1 # 0 THEN @ \cup {<<c, cell[c].col>>} ELSE @,
+                               !.cut = IF ends /\ ~fails /\ rem1 # 0 THEN @ \cup {<<c, cell[c].col>>} ELSE @,
                                !.produced = IF counted THEN @ \cup {sid} ELSE @,
                                !.dropped = IF full /\ counted THEN @ \cup {sid} ELSE @]
-       /\ UNCHANGED <<scn, d2w, w2d, rcbox, timers, dtimers, drv>>
-       /\ act' = [name |-> "ExecStep", c |-> c]
+       /\ UNCHANGED <<d2w, w2d, timers>>
+       /\ UNCHANGED <<scn, d2d, rc2d, rcbox, rcst, dtimers, drv>>
+
+ExecStep(c) == ExecStepWith(c, "ok") /\ UNCHANGED flt /\ act' = [name |-> "ExecStep", c |-> c]
+
+RaceRunning == \A i \in 1..Len(rcbox) : rcbox[i].k # "BenchmarkComplete"
+CanFault(k) == flt.kind = k /\ ~flt.fired /\ ~flt.armed /\ RaceRunning /\ drv.alive /\ rcst.alive
+
+(* fault: a request fails under on-error=abort / with a fatal connection error / the runner raises *)
+FReq(c) == /\ CanFault("req") /\ ExecStepWith(c, "fatal")
+           /\ flt' = [flt EXCEPT !.fired = TRUE, !.armed = FALSE] /\ act' = [name |-> "FReq", c |-> c]
+(* fault: the parameter source raises *)
+FParam(c) == /\ CanFault("param") /\ ExecStepWith(c, "param")
+             /\ flt' = [flt EXCEPT !.fired = TRUE, !.armed = FALSE] /\ act' = [name |-> "FParam", c |-> c]
 
 -----------------------------------------------------------------------------
 (* Coordinator *)
-Broadcast(msg) == [w \in Workers(scn) |-> Append(d2w[w], msg)]
+Broadcast(msg) == [w \in Workers(scn) |-> IF wk[w].alive THEN Append(d2w[w], msg) ELSE d2w[w]]
+DUnch == UNCHANGED <<scn, rc2d, rcst, timers, wk, cell>>
 
 (* Driver.update_samples *)
 DRecvUpdateSamples(w) ==
-    /\ w2d[w] # <<>> /\ Head(w2d[w]).k = "UpdateSamples"
+    /\ drv.alive /\ w2d[w] # <<>> /\ Head(w2d[w]).k = "UpdateSamples"
     /\ w2d' = [w2d EXCEPT ![w] = Tail(@)]
     /\ drv' = [drv EXCEPT !.raw = @ \o Head(w2d[w]).ids]
-    /\ UNCHANGED <<scn, d2w, rcbox, timers, dtimers, wk, cell, hist>>
+    /\ UNCHANGED <<d2w, d2d, rcbox, dtimers, flt, hist>> /\ DUnch
     /\ act' = [name |-> "DRecvUpdateSamples", w |-> w]
 
 Finished == drv.step = NSteps(scn)
+StoreFaultFires == flt.kind = "store" /\ flt.armed /\ ~flt.fired /\ drv.raw # <<>>
 
 (* DriverActor.receiveMsg_WakeupMessage; i = position of the fired timer in dtimers *)
 DWakeup(i) ==
-    /\ i \in 1..Len(dtimers)
+    /\ drv.alive /\ i \in 1..Len(dtimers)
     /\ LET rest == [k \in 1..(Len(dtimers) - 1) |-> IF k < i THEN dtimers[k] ELSE dtimers[k + 1]]
-       IN IF dtimers[i] = "reset" \/ Finished
+       IN IF dtimers[i] = "reset" /\ Finished
+          THEN \* a relative-time reset that fires after the benchmark has finished finds no metrics store any more and raises
+               \* (behaviour of the code as it is): no_retry reports a BenchmarkFailure although the race is complete
+               /\ dtimers' = rest
+               /\ IF SelfFailFix THEN d2d' = d2d /\ rcbox' = Append(rcbox, Msg("BenchmarkFailure"))
+                                 ELSE d2d' = Append(d2d, Msg("BenchmarkFailure")) /\ rcbox' = rcbox
+               /\ UNCHANGED <<drv, flt>>
+          ELSE IF dtimers[i] = "reset" \/ Finished
           THEN /\ dtimers' = rest
-               /\ drv' = drv
+               /\ UNCHANGED <<drv, d2d, flt, rcbox>>
+          ELSE IF drv.ppt + 1 >= PPInterval
+          THEN IF StoreFaultFires
+               THEN \* the metrics store fails while samples are stored: the snapshot is lost, no_retry notifies the sender
+                    \* of the message, which for a wake-up is the coordinator itself; the wake-up is not re-armed
+                    /\ dtimers' = rest
+                    /\ drv' = [drv EXCEPT !.ppt = 0, !.raw = <<>>]
+                    /\ IF SelfFailFix THEN d2d' = d2d /\ rcbox' = Append(rcbox, Msg("BenchmarkFailure"))
+                                      ELSE d2d' = Append(d2d, Msg("BenchmarkFailure")) /\ rcbox' = rcbox
+                    /\ flt' = [flt EXCEPT !.fired = TRUE, !.armed = FALSE]
+               ELSE /\ dtimers' = Append(rest, "tick")
+                    /\ drv' = [drv EXCEPT !.ppt = 0, !.raw = <<>>, !.store = @ \o drv.raw]     \* post_process_samples
+                    /\ UNCHANGED <<d2d, flt, rcbox>>
           ELSE /\ dtimers' = Append(rest, "tick")
-               /\ drv' = IF drv.ppt + 1 >= PPInterval
-                         THEN [drv EXCEPT !.ppt = 0, !.raw = <<>>, !.store = @ \o drv.raw]     \* post_process_samples
-                         ELSE [drv EXCEPT !.ppt = @ + 1]
-    /\ UNCHANGED <<scn, d2w, w2d, rcbox, timers, wk, cell, hist>>
+               /\ drv' = [drv EXCEPT !.ppt = @ + 1]
+               /\ UNCHANGED <<d2d, flt, rcbox>>
+    /\ UNCHANGED <<d2w, w2d, hist>> /\ DUnch
     /\ act' = [name |-> "DWakeup", i |-> i]
 
 (* Driver.joinpoint_reached / may_complete_current_task / move_to_next_task *)
 DRecvJoinPointReached(w) ==
-    /\ w2d[w] # <<>> /\ Head(w2d[w]).k = "JoinPointReached"
+    /\ drv.alive /\ w2d[w] # <<>> /\ Head(w2d[w]).k = "JoinPointReached"
     /\ w2d' = [w2d EXCEPT ![w] = Tail(@)]
     /\ LET e == Head(w2d[w]).e
            done1 == drv.doneW \cup {w}
        IN IF drv.completed + 1 = scn.W
           THEN \* barrier opens: post-process, hand all records over to race control
+               IF StoreFaultFires
+               THEN \* post-processing raises after the step counters were advanced: nothing is handed over, nobody is told
+                    \* to drive on, no_retry answers the worker whose message was being handled
+                    /\ drv' = [drv EXCEPT !.completed = 0, !.doneW = {}, !.step = @ + 1, !.cct = FALSE, !.raw = <<>>]
+                    /\ d2w' = [d2w EXCEPT ![w] = Append(@, Msg("BenchmarkFailure"))]
+                    /\ flt' = [flt EXCEPT !.fired = TRUE, !.armed = FALSE]
+                    /\ UNCHANGED <<rcbox, dtimers, hist>>
+               ELSE
                /\ drv' = [drv EXCEPT !.completed = 0, !.doneW = {}, !.step = @ + 1, !.cct = FALSE, !.raw = <<>>, !.store = <<>>]
                /\ IF drv.step + 1 = NSteps(scn)
                   THEN /\ rcbox' = Append(rcbox, [Msg("BenchmarkComplete") EXCEPT !.ids = drv.store \o drv.raw])
@@ -308,8 +390,8 @@ DRecvJoinPointReached(w) ==
                   ELSE /\ rcbox' = Append(rcbox, [Msg("TaskFinished") EXCEPT !.ids = drv.store \o drv.raw])
                        /\ d2w' = Broadcast(Msg("Drive"))
                        /\ dtimers' = IF TestMode THEN dtimers ELSE Append(dtimers, "reset")
-               /\ hist' = hist
-          ELSE /\ rcbox' = rcbox /\ dtimers' = dtimers
+               /\ UNCHANGED <<hist, flt>>
+          ELSE /\ rcbox' = rcbox /\ dtimers' = dtimers /\ flt' = flt
                /\ IF AcpClients(scn, e) # {} /\ ~drv.cct
                   THEN /\ drv' = [drv EXCEPT !.completed = @ + 1, !.doneW = done1, !.cct = TRUE]
                        /\ d2w' = Broadcast(Msg("CompleteCurrentTask"))
@@ -324,19 +406,133 @@ DRecvJoinPointReached(w) ==
                   ELSE /\ drv' = [drv EXCEPT !.completed = @ + 1, !.doneW = done1]
                        /\ d2w' = d2w
                        /\ hist' = hist
-    /\ UNCHANGED <<scn, timers, wk, cell>>
+    /\ UNCHANGED d2d /\ DUnch
     /\ act' = [name |-> "DRecvJoinPointReached", w |-> w]
 
+(* DriverActor.receiveMsg_BenchmarkFailure: close the driver, forward to race control.  src = "w" (from worker w),    *)
+(* "self" (own no_retry message) or "rc" (race control's no_retry answer)                                             *)
+DRecvBenchmarkFailure(w) ==
+    /\ drv.alive /\ w2d[w] # <<>> /\ Head(w2d[w]).k = "BenchmarkFailure"
+    /\ w2d' = [w2d EXCEPT ![w] = Tail(@)]
+    /\ rcbox' = Append(rcbox, Msg("BenchmarkFailure"))
+    /\ UNCHANGED <<d2w, d2d, dtimers, drv, flt, hist>> /\ DUnch
+    /\ act' = [name |-> "DRecvBenchmarkFailure", w |-> w]
+
+DRecvSelfFailure ==
+    /\ drv.alive /\ d2d # <<>>
+    /\ d2d' = Tail(d2d)
+    /\ rcbox' = Append(rcbox, Msg("BenchmarkFailure"))
+    /\ UNCHANGED <<d2w, w2d, dtimers, drv, flt, hist>> /\ DUnch
+    /\ act' = [name |-> "DRecvSelfFailure", w |-> 0]
+
+(* messages from race control: its no_retry answer to a failed hand-over, or ActorExitRequest after completion *)
+DRecvFromRc ==
+    /\ drv.alive /\ rc2d # <<>>
+    /\ rc2d' = Tail(rc2d)
+    /\ IF Head(rc2d).k = "BenchmarkFailure"
+       THEN /\ rcbox' = Append(rcbox, Msg("BenchmarkFailure"))
+            /\ UNCHANGED <<d2w, w2d, d2d, dtimers, drv, timers, wk>>
+       ELSE \* ActorExitRequest: the coordinator and, through it, all workers exit; whatever was still addressed to them is lost
+            /\ drv' = [drv EXCEPT !.alive = FALSE]
+            /\ d2d' = <<>> /\ dtimers' = <<>>
+            /\ w2d' = [w \in Workers(scn) |-> <<>>]
+            /\ d2w' = [w \in Workers(scn) |-> <<>>]
+            /\ wk' = [w \in Workers(scn) |-> [wk[w] EXCEPT !.alive = FALSE]]
+            /\ timers' = [w \in Workers(scn) |-> 0]
+            /\ rcbox' = rcbox
+    /\ UNCHANGED <<scn, rcst, cell, flt, hist>>
+    /\ (Head(rc2d).k = "BenchmarkFailure" => rc2d' = Tail(rc2d))
+    /\ act' = [name |-> "DRecvFromRc", w |-> 0]
+
+(* DriverActor.receiveMsg_ChildActorExited for a worker that died *)
+DRecvChildExited(w) ==
+    /\ drv.alive /\ w2d[w] # <<>> /\ Head(w2d[w]).k = "ChildActorExited"
+    /\ w2d' = [w2d EXCEPT ![w] = Tail(@)]
+    /\ rcbox' = Append(rcbox, Msg("BenchmarkFailure"))
+    /\ UNCHANGED <<d2w, d2d, dtimers, drv, flt, hist>> /\ DUnch
+    /\ act' = [name |-> "DRecvChildExited", w |-> w]
+
+-----------------------------------------------------------------------------
+(* Faults of the environment *)
+
+(* the metrics store of the coordinator / of race control starts failing: the next store operation raises *)
+FArm(k) == /\ k \in {"store", "rcstore"} /\ CanFault(k)
+           /\ flt' = [flt EXCEPT !.armed = TRUE]
+           /\ UNCHANGED <<scn, d2w, w2d, d2d, rc2d, rcbox, rcst, timers, dtimers, drv, wk, cell, hist>>
+           /\ act' = [name |-> "FArm", w |-> 0]
+
+(* a worker process dies: its parent is notified after whatever the worker had already sent *)
+FWorkerDies(w) ==
+    /\ CanFault("die") /\ wk[w].alive
+    /\ wk[w].cur < NCols(scn) - 1          \* the worker has not yet reported the last join point: it still takes part in the race
+    /\ wk' = [wk EXCEPT ![w].alive = FALSE]
+    /\ timers' = [timers EXCEPT ![w] = 0]
+    /\ d2w' = [d2w EXCEPT ![w] = <<>>]
+    /\ w2d' = [w2d EXCEPT ![w] = Append(@, Msg("ChildActorExited"))]
+    /\ cell' = [c \in Clients(scn) |-> IF scn.workerOf[c + 1] = w /\ cell[c].st = "pend" THEN [cell[c] EXCEPT !.st = "aband"] ELSE cell[c]]
+    /\ flt' = [flt EXCEPT !.fired = TRUE, !.armed = FALSE]
+    /\ UNCHANGED <<scn, d2d, rc2d, rcbox, rcst, dtimers, drv, hist>>
+    /\ act' = [name |-> "FWorkerDies", w |-> w]
+
+(* the user interrupts: race() asks race control with BenchmarkCancelled (answered at once), then tells it to exit *)
+FCancel ==
+    /\ CanFault("cancel")
+    /\ rcst' = [rcst EXCEPT !.cancelled = TRUE, !.replies = Append(@, "Cancelled")]
+    /\ flt' = [flt EXCEPT !.fired = TRUE, !.armed = FALSE]
+    /\ UNCHANGED <<scn, d2w, w2d, d2d, rc2d, rcbox, timers, dtimers, drv, wk, cell, hist>>
+    /\ act' = [name |-> "FCancel", w |-> 0]
+
+-----------------------------------------------------------------------------
+(* Race control: BenchmarkActor handles the next message of rcbox *)
+RcUnch == UNCHANGED <<scn, d2w, w2d, d2d, rcbox, timers, dtimers, drv, wk, cell, hist>>
+RcStoreFaultFires == flt.kind = "rcstore" /\ flt.armed /\ ~flt.fired
+
+RcRecv ==
+    /\ rcst.alive /\ rcst.pos < Len(rcbox)
+    /\ LET m == rcbox[rcst.pos + 1] IN
+       IF m.k \in {"TaskFinished", "BenchmarkComplete"} /\ RcStoreFaultFires
+       THEN \* bulk_add raises: no_retry answers the coordinator with BenchmarkFailure
+            /\ rcst' = [rcst EXCEPT !.pos = @ + 1]
+            /\ rc2d' = Append(rc2d, Msg("BenchmarkFailure"))
+            /\ flt' = [flt EXCEPT !.fired = TRUE, !.armed = FALSE]
+       ELSE IF m.k = "TaskFinished"
+       THEN /\ rcst' = [rcst EXCEPT !.pos = @ + 1]
+            /\ UNCHANGED <<rc2d, flt>>
+       ELSE IF m.k = "BenchmarkComplete"
+       THEN \* on_benchmark_complete: results are calculated, stored and summarised unless cancelled or failed
+            /\ rcst' = [rcst EXCEPT !.pos = @ + 1, !.stored = @ \/ (~rcst.cancelled /\ ~rcst.error), !.stopping = TRUE]
+            /\ rc2d' = Append(rc2d, Msg("ActorExitRequest"))
+            /\ flt' = flt
+       ELSE \* BenchmarkFailure: remember the error, answer whoever started the race
+            /\ rcst' = [rcst EXCEPT !.pos = @ + 1, !.error = TRUE, !.replies = Append(@, "Failure")]
+            /\ UNCHANGED <<rc2d, flt>>
+    /\ RcUnch
+    /\ act' = [name |-> "RcRecv", w |-> 0]
+
+(* the mechanic confirms that the engine has stopped: race control reports success *)
+RcEngineStopped ==
+    /\ rcst.alive /\ rcst.stopping
+    /\ rcst' = [rcst EXCEPT !.stopping = FALSE, !.replies = Append(@, "Success")]
+    /\ UNCHANGED <<rc2d, flt>> /\ RcUnch
+    /\ act' = [name |-> "RcEngineStopped", w |-> 0]
+
 Next == \/ \E w \in Workers(scn) : \/ WRecvBootstrap(w) \/ WRecvStartWorker(w) \/ WRecvDrive(w) \/ WRecvCCT(w) \/ WWakeup(w)
-                                    \/ ExecStart(w) \/ DRecvJoinPointReached(w) \/ DRecvUpdateSamples(w)
-        \/ \E c \in Clients(scn) : ExecStep(c)
+                                    \/ WRecvBenchmarkFailure(w) \/ ExecStart(w)
+                                    \/ DRecvJoinPointReached(w) \/ DRecvUpdateSamples(w) \/ DRecvBenchmarkFailure(w) \/ DRecvChildExited(w)
+                                    \/ FWorkerDies(w)
+        \/ \E c \in Clients(scn) : ExecStep(c) \/ FReq(c) \/ FParam(c)
         \/ \E i \in 1..Len(dtimers) : DWakeup(i)
+        \/ DRecvSelfFailure \/ DRecvFromRc \/ RcRecv \/ RcEngineStopped
+        \/ FArm("store") \/ FArm("rcstore") \/ FCancel
 
 WorkerStep(w) == WRecvBootstrap(w) \/ WRecvStartWorker(w) \/ WRecvDrive(w) \/ WRecvCCT(w) \/ WWakeup(w) \/ ExecStart(w)
-                 \/ DRecvJoinPointReached(w) \/ DRecvUpdateSamples(w)
+                 \/ WRecvBenchmarkFailure(w)
+                 \/ DRecvJoinPointReached(w) \/ DRecvUpdateSamples(w) \/ DRecvBenchmarkFailure(w) \/ DRecvChildExited(w)
 (* fairness w.r.t. the real state (view): a wake-up that only re-arms itself is no progress *)
 Fairness == /\ \A w \in 1..3 : WF_view(w \in Workers(scn) /\ WorkerStep(w))
             /\ \A c \in 0..5 : WF_view(c \in Clients(scn) /\ ExecStep(c))
+            /\ WF_view(DRecvSelfFailure) /\ WF_view(DRecvFromRc) /\ WF_view(RcRecv) /\ WF_view(RcEngineStopped)
+            /\ WF_view(\E i \in 1..Len(dtimers) : DWakeup(i))
 
 Spec == Init /\ [][Next]_vars
 FairSpec == Spec /\ Fairness
@@ -364,7 +560,6 @@ ExactlyOnceAtEnd ==
 CompleteOnce ==
     /\ NComplete <= 1
     /\ Complete => /\ drv.step = NSteps(scn)
-                   /\ rcbox[Len(rcbox)].k = "BenchmarkComplete"
                    /\ \A c \in Clients(scn) : cell[c].st # "pend"
                    /\ \A w \in Workers(scn) : wk[w].fut \in {"none"}
                    /\ Cardinality({i \in 1..Len(rcbox) : rcbox[i].k = "TaskFinished"}) = NSteps(scn)
@@ -390,7 +585,7 @@ NoHang == <>Complete
 (* a state in which no worker, executor or message can make progress must be the completed race *)
 Quiescent == /\ \A w \in Workers(scn) : d2w[w] = <<>> /\ w2d[w] = <<>> /\ timers[w] = 0 /\ wk[w].fut # "submitted"
              /\ \A c \in Clients(scn) : cell[c].st # "pend"
-NoStall == Quiescent => Complete
+NoStall == (flt.kind = "none" /\ Quiescent) => Complete
 
 -----------------------------------------------------------------------------
 (* PROPERTY C07: every produced sample that was not dropped is in exactly one stage of the pipeline *)
@@ -404,9 +599,22 @@ Pipeline == FlattenF([w \in Workers(scn) |-> wk[w].sampq \o MsgIds(w2d[w])], Wor
             \o drv.raw \o drv.store \o MsgIds(rcbox)
 
 SampleConservation ==
+    flt.kind = "none" =>
     /\ ToSet(Pipeline) = hist.produced \ hist.dropped
     /\ Len(Pipeline) = Cardinality(ToSet(Pipeline))            \* no duplicates anywhere
 
-AllSamplesAtRaceControl == Complete => ToSet(MsgIds(rcbox)) = hist.produced \ hist.dropped
+AllSamplesAtRaceControl == (flt.kind = "none" /\ Complete) => ToSet(MsgIds(rcbox)) = hist.produced \ hist.dropped
 OnlyFullQueueDrops == hist.dropped # {} => QMax < 100
+
+-----------------------------------------------------------------------------
+(* PROPERTY C09: any failure or cancellation ends the race as failed, never as success *)
+Faulted == flt.kind # "none" /\ flt.fired
+FirstReply == IF rcst.replies = <<>> THEN "none" ELSE rcst.replies[1]
+
+FaultNeverSuccess == Faulted => FirstReply # "Success"
+NoResultsOnFailure == Faulted => ~rcst.stored
+(* once cancelled, results are not stored afterwards *)
+CancelNoResults == [][(rcst.cancelled /\ ~rcst.stored) => ~rcst'.stored]_vars
+(* the failure reaches race control (liveness; cancellation is answered synchronously) *)
+FaultReported == (Faulted /\ flt.kind # "cancel") ~> rcst.error
 =============================================================================
